@@ -1108,6 +1108,20 @@ fn admin_driver(out: &str, seed: u64, n: u64) {
                 let idle = rng2.gen_bool(0.4);
                 if idle {
                     r.act(json!({"op":"tick","dt": rng2.gen_range(2i64..5) * 86400 + rng2.gen_range(1i64..80000)}));
+                    // a clean burst sized so that two withdrawals together exceed the limit while each one stays below it
+                    if limit >= 5 {
+                        let each = limit * 4 / 5;                                  // dollars per withdrawal
+                        let wamt = each * 1_000_000 / 7 + 1;                       // B2 units ($7 per 1e6)
+                        for _ in 0..3 {
+                            r.act(json!({"op":"tx","ixs":[
+                                json!({"op":"start_delev","acct":"A2","signer":"riskadmin"}),
+                                json!({"op":"withdraw","acct":"A2","bank":"B2","amount":wamt,"signer":"riskadmin"}),
+                                json!({"op":"repay","acct":"A2","bank":"B1","amount":wamt * 8,"signer":"riskadmin"}),
+                                json!({"op":"end_delev","acct":"A2","signer":"riskadmin"}),
+                            ]}));
+                            r.act(json!({"op":"tick","dt": rng2.gen_range(1i64..30)}));
+                        }
+                    }
                 }
                 for _ in 0..rng.gen_range(1..5) {
                     let acct = *pick(&mut rng, &["A2", "A3"]);
